@@ -388,7 +388,7 @@ pub fn process<I: BufRead, O: Write>(
                 let mut s = remaining.split("//").next().unwrap().splitn(2, "/*");
                 // Is there a string start before that point ?
                 let s2 = s.next().unwrap();
-                if !s2.starts_with("#include") && !asm {
+                if !s2.trim_start().starts_with("#include") && !asm {
                     if let Some((left, _)) = s2.split_once('"') {
                         // We have a string start
                         // Let's find the end of the string
@@ -398,19 +398,15 @@ pub fn process<I: BufRead, O: Write>(
                         while !done {
                             let s3 = &remaining[cursor..];
                             if let Some((left, _)) = s3.split_once('"') {
-                                if !left.ends_with("\\") {
+                                // The quote closes the string unless it is escaped: an odd
+                                // number of backslashes in front of it
+                                let backslashes = left.len() - left.trim_end_matches('\\').len();
+                                if backslashes % 2 == 0 {
                                     found = true;
                                     done = true;
                                     cursor += left.len();
                                 } else {
-                                    // Let's check it's not an escaped backslash
-                                    if left.ends_with("\\\\") {
-                                        found = true;
-                                        done = true;
-                                        cursor += left.len();
-                                    } else {
-                                        cursor += left.len() + 1;
-                                    }
+                                    cursor += left.len() + 1;
                                 }
                             } else {
                                 done = true;
@@ -477,7 +473,7 @@ pub fn process<I: BufRead, O: Write>(
             let substr = uncommented_buf.trim();
             // Before substitution, test the #ifdef
             if substr.starts_with("#ifdef") {
-                let mut parts = substr.split("//").next().unwrap().splitn(2, ' ');
+                let mut parts = substr.split("//").next().unwrap().splitn(2, [' ', '\t']);
                 parts.next().unwrap();
                 let maybe_expr = parts.next().map(|s| s.trim()).and_then(|s| {
                     if s.is_empty() {
@@ -506,7 +502,7 @@ pub fn process<I: BufRead, O: Write>(
                     state = State::Skip;
                 }
             } else if substr.starts_with("#ifndef") {
-                let mut parts = substr.split("//").next().unwrap().splitn(2, ' ');
+                let mut parts = substr.split("//").next().unwrap().splitn(2, [' ', '\t']);
                 parts.next().unwrap();
                 let maybe_expr = parts.next().map(|s| s.trim()).and_then(|s| {
                     if s.is_empty() {
@@ -536,7 +532,7 @@ pub fn process<I: BufRead, O: Write>(
                 }
             } else if substr.starts_with("#undef") {
                 if state == State::Active {
-                    let mut parts = substr.split("//").next().unwrap().splitn(2, ' ');
+                    let mut parts = substr.split("//").next().unwrap().splitn(2, [' ', '\t']);
                     parts.next().unwrap();
                     let maybe_expr = parts.next().map(|s| s.trim()).and_then(|s| {
                         if s.is_empty() {
@@ -563,7 +559,7 @@ pub fn process<I: BufRead, O: Write>(
                 }
             } else if substr.starts_with("#define") {
                 if state == State::Active {
-                    let mut parts = substr.split("//").next().unwrap().splitn(2, ' ');
+                    let mut parts = substr.split("//").next().unwrap().splitn(2, [' ', '\t']);
                     parts.next().unwrap();
                     let maybe_expr = parts.next().map(|s| s.trim()).and_then(|s| {
                         if s.is_empty() {
@@ -638,7 +634,7 @@ pub fn process<I: BufRead, O: Write>(
                 let new_line = context.replace_all(&uncommented_buf);
                 let substr = new_line.trim();
                 if substr.starts_with('#') {
-                    let mut parts = substr.split("//").next().unwrap().splitn(2, ' ');
+                    let mut parts = substr.split("//").next().unwrap().splitn(2, [' ', '\t']);
                     let name = parts.next().unwrap();
                     let maybe_expr = parts.next().map(|s| s.trim()).and_then(|s| {
                         if s.is_empty() {
